@@ -1,7 +1,7 @@
 ---- MODULE CallFramesOps ----
 (* The world of C16 (see CallFrames.tla): a small abstract account state plus the change journal the platform
    reverts with, as pure operators.  Shared by the generator CallFrames.tla and the validator TraceCallFrames.tla. *)
-EXTENDS Integers, Sequences, FiniteSets, TLC
+EXTENDS Integers, Sequences, FiniteSets, TLC, SequencesExt
 
 CONSTANTS Contracts,    \* accounts holding code
           Sender,       \* the transaction sender
@@ -44,17 +44,17 @@ UndoOne(w, e) ==
     [] e.t = "ev"   -> w
     [] e.t = "sui"  -> [w EXCEPT !.bal[e.a] = e.ob, !.dead[e.a] = FALSE, !.code[e.a] = e.oc,
                                  !.stor[e.a] = IF w.devS THEN w.base[e.a] ELSE e.os]
-RECURSIVE Undo(_, _)
+\* undo the journal entries above the mark, newest first (FoldLeft: evaluated iteratively by TLC)
 Undo(w, mark) ==
-  IF Len(w.jr) <= mark THEN w
-  ELSE LET n == Len(w.jr) IN Undo(UndoOne([w EXCEPT !.jr = SubSeq(@, 1, n - 1)], w.jr[n]), mark)
+  LET n == Len(w.jr) IN
+  IF n <= mark THEN w
+  ELSE [FoldLeft(LAMBDA acc, k : UndoOne(acc, w.jr[n + 1 - k]), w, [k \in 1..(n - mark) |-> k]) EXCEPT !.jr = SubSeq(w.jr, 1, mark)]
 
 \* versions of one (account, type) inside the range to undo are not contiguous
 GapIn(jr, mark) ==
-  \E i, j \in (mark + 1)..Len(jr) :
-     /\ i < j /\ jr[i].a = jr[j].a /\ jr[i].t = jr[j].t
-     /\ \A k \in (i + 1)..(j - 1) : ~(jr[k].a = jr[i].a /\ jr[k].t = jr[i].t)
-     /\ jr[j].v # jr[i].v + 1
+  \E j \in (mark + 2)..Len(jr) :
+     LET S == {i \in (mark + 1)..(j - 1) : jr[i].a = jr[j].a /\ jr[i].t = jr[j].t}        \* earlier entries of the same kind
+     IN S # {} /\ jr[j].v # jr[CHOOSE i \in S : \A k \in S : k <= i].v + 1
 RevertTo(w, mark) == IF w.devG /\ GapIn(w.jr, mark) THEN [w EXCEPT !.crash = TRUE] ELSE Undo(w, mark)
 
 NEv(w, tag) == Cardinality({i \in 1..Len(w.jr) : w.jr[i].t = "ev" /\ w.jr[i].sl = tag})
